@@ -13,7 +13,7 @@ class Counter:
         self.n = 0
 
 
-def make_engine(ed, handler_kind="blocking", workers=2):
+def make_engine(ed, handler_kind="blocking", workers=2, gate=None):
     from bobocep.cep.action.action import BoboAction
     from bobocep.cep.action.handler import BoboActionHandlerBlocking, BoboActionHandlerMultithreading
     from bobocep.cep.engine.decider.decider import BoboDecider
@@ -49,6 +49,8 @@ def make_engine(ed, handler_kind="blocking", workers=2):
 
         def execute(self, event):
             log["execs"].append((self.code, PL.ev_code(event)))
+            if gate is not None:
+                gate.wait(10)
             return self.ok, self.data
 
     cfg = ed["cfg"]
